@@ -508,6 +508,9 @@ class InterleavedCheck(PropertyCheck):
         res.failures.sort(key=lambda f: len(json.dumps(f.input)))
         return res
 
+    def replay_input(self, inp):
+        return oracle(inp, run_real(inp), self.which)
+
     def search(self, budget_s, hints):
         import time
         t0 = time.time()
@@ -528,6 +531,12 @@ class InterleavedCheck(PropertyCheck):
 class C04(InterleavedCheck):
     pid = "C04"
     which = "C04"
+    design_ref = "DESIGN.md 3 (C04/C05/C06)"
+    level_text = ("Lean theorems (KDVerif.Props.C04): for all accepted geometries, budgets, config sets, oracles and checkpoints before the budget the "
+                  "code-mirroring per-sample loop terminates and equals the per-update stream (batches of B, short last batch, drop_last remainder, "
+                  "budget test after every update). Model tied to the code by differential correspondence each run.")
+    level_note = ("trusted: Lean kernel + standard axioms; the correspondence harness; samplers are oracles yielding len(sampler) indices; "
+                  "closed-form count of updates per budget kind is not yet a separate theorem (stop rule is proved as 'stop iff budget reached after this update')")
     props_modules = ["KDVerif.Props.C04"]
 
     def view(self, case, ans):
@@ -544,12 +553,24 @@ class C04(InterleavedCheck):
 class C05(InterleavedCheck):
     pid = "C05"
     which = "C05"
+    design_ref = "DESIGN.md 3 (C04/C05/C06)"
+    level_text = ("Lean theorems (KDVerif.Props.C05): due-decision = disjunction of reached/crossed intervals (all kind combinations), passes are whole, "
+                  "in order, shifted into the config's range and end on a batch boundary, shifted indices resolve to (dataset, sample), zero budget = one pass "
+                  "per config; stream structure inherited from the refinement theorem of C04. Correspondence each run incl. collator dispatch on the real objects.")
+    level_note = ("trusted: Lean kernel + standard axioms; correspondence harness; 'no batch mixes datasets' is proved per pass (ends on a boundary) and checked "
+                  "on every real batch by the oracle, the whole-stream composition lemma is partial")
     props_modules = ["KDVerif.Props.C05"]
 
 
 class C06(InterleavedCheck):
     pid = "C06"
     which = "C06"
+    design_ref = "DESIGN.md 3 (C04/C05/C06)"
+    level_text = ("Lean theorem resume_is_suffix (KDVerif.Props.C06): for every accepted epoch-boundary checkpoint strictly before the budget the resumed stream "
+                  "is a suffix of the uninterrupted one (all geometries/budgets/configs/oracles); start_update/start_sample reduce to start_epoch. "
+                  "Correspondence + direct suffix oracle on the real sampler each run.")
+    level_note = ("trusted: Lean kernel + standard axioms; correspondence harness; side samplers are functions of (config, update number) in the model "
+                  "(stateless samplers in the correspondence)")
     props_modules = ["KDVerif.Props.C06"]
 
     def cases(self):
